@@ -174,6 +174,36 @@ func (c *Ctx) RuleScanErr() *Result {
 			res.bad(key, pos, problem+": the rest of the input is silently dropped")
 			continue
 		}
+		// every Err() result is looked at before the same call produces the next one
+		for _, e := range errs {
+			lost := ""
+			env := newEnvAt(e.Block())
+			c.explore(e.Block(), instrIndex(e)+1, env, exploreCB{
+				instr: func(in ssa.Instruction, pe *pathEnv) bool {
+					if in == ssa.Instruction(e) {
+						if lost == "" {
+							lost = fmt.Sprintf("the result of Err() at %s is overwritten by the next call before it is looked at: an overflow in one pass of the loop is forgotten when a later pass succeeds", c.P.InstrPos(e))
+						}
+						return true
+					}
+					if iff, ok := in.(*ssa.If); ok {
+						cond, _ := unwrapNot(iff.Cond)
+						if v, _, isTest := nilTest(cond); isTest && (pe.resolve(v) == ssa.Value(e) || v == ssa.Value(e)) {
+							return true
+						}
+					}
+					return false
+				},
+				ret: func(r *ssa.Return, pe *pathEnv) {},
+			})
+			if lost != "" && problem == "" {
+				problem = lost
+			}
+		}
+		if problem != "" {
+			res.bad(key, pos, problem)
+			continue
+		}
 		// every Err() result must be treated as a failure
 		for _, e := range errs {
 			if v, ok := handle[e]; ok && v.Verdict != Discharged && v.Verdict != Exempt {
